@@ -4,14 +4,14 @@ CONSTANTS
   Local0 = "n0"
   T100 = 670
   EmitStep = TRUE
-  Heights = {1, 2}
+  Heights = {1}
   Rounds = {0, 1}
   Stages = {1, 3}
   Facts = {"A"}
   ExSets = {{}, {"n2"}}
   AllowSC = TRUE
   MaxId = 10
-  MaxVotes = 12
+  MaxVotes = 10
   MaxChan = 3
   MaxSet = 2
   StoreSC = "sf-"
